@@ -32,6 +32,7 @@ func (q *Queue[T]) Iterator() <-chan *list.Element {
 		for e := q.queue.Front(); e != nil; {
 			current := e
 			e = e.Next()
+			verifIterYield()
 			iter <- current
 		}
 	}()
